@@ -20,7 +20,9 @@ def run_impl(case):
     """Everything the accessor reports, canonicalised to index form."""
     try:
         dm = I.mk(case)
-        alts = list(dm.alternatives)
+        alts = [a.item() if hasattr(a, "item") else a for a in np.asarray(dm.alternatives)]
+        if case.get("alternatives") is not None and alts != list(case["alternatives"]):
+            return ["EXC", f"alternatives are reported as {alts!r}"]
         idx = {a: i for i, a in enumerate(alts)}
         n, m = len(alts), len(dm.criteria)
         acc = dm.dominance
@@ -151,16 +153,26 @@ def nontrivial(case):
     return False
 
 
+CORPUS = [
+    # fixed 3978c8e / 81f1f51: integer labels that coincide with positions, listed in another order
+    {"matrix": [[1.0, 2.0], [3.0, 1.0], [2.0, 2.0], [3.0, 3.0]], "objectives": [1, 1], "weights": [1.0, 1.0],
+     "alternatives": [2, 0, 3, 1], "criteria": [1, 0], "kind": "rand", "mode": "corpus", "labels": "int_positions", "tags": []},
+    {"matrix": [[1.0, 2.0], [3.0, 1.0], [2.0, 2.0], [3.0, 3.0]], "objectives": [1, -1], "weights": [1.0, 1.0],
+     "alternatives": [3, 10, 17, 24], "criteria": ["a", "b"], "kind": "rand", "mode": "corpus", "labels": "int_other", "tags": []},
+]
+
+
 def gen_cases(ctx):
-    cases = []
+    cases = [dict(c) for c in CORPUS]
     # exhaustive part
     nmax, mmax = (3, 2)
     for mtx, objs in gen.all_small_matrices(nmax, mmax):
         cases.append({"matrix": mtx, "objectives": objs, "weights": None, "kind": "exh"})
-    if ctx.tier == "thorough" or ctx.changed:
+    if ctx.tier == "thorough":
         for mtx, objs in gen.all_small_matrices(3, 3):
             if len(mtx[0]) == 3:
                 cases.append({"matrix": mtx, "objectives": objs, "weights": None, "kind": "exh"})
+    if ctx.tier == "thorough" or ctx.changed:
         for mtx, objs in gen.all_small_matrices(4, 2):
             if len(mtx) == 4:
                 cases.append({"matrix": mtx, "objectives": objs, "weights": None, "kind": "exh"})
@@ -171,6 +183,21 @@ def gen_cases(ctx):
         ctx.rng.shuffle(order)
         c["order"] = order
         c["kind"] = "rand"
+        t = ctx.rng.random()
+        if t < 0.2:
+            # label kinds: integers (a shuffled 0..n-1, so that labels and positions disagree; or unrelated integers),
+            # or strings that look like numbers
+            n, m = len(c["matrix"]), len(c["weights"])
+            kind = ctx.rng.choice(["int_positions", "int_other", "numeric_strings"])
+            if kind == "int_positions":
+                a, k = list(range(n)), list(range(m))
+                ctx.rng.shuffle(a)
+                ctx.rng.shuffle(k)
+            elif kind == "int_other":
+                a, k = [7 * i + 3 for i in range(n)], [100 - i for i in range(m)]
+            else:
+                a, k = [str(n - i) for i in range(n)], [str(2 * j) for j in range(m)]
+            c["alternatives"], c["criteria"], c["labels"] = a, k, kind
         cases.append(c)
     return cases
 
@@ -200,6 +227,7 @@ def run(ctx):
         ctx.count(f"shape:{len(c['matrix'])}x{len(c['matrix'][0])}")
         if c["kind"] == "rand":
             ctx.count("mode:" + c["mode"])
+            ctx.count("labels:" + c.get("labels", "strings"))
         compare_one(ctx, c, o, mo)
     ctx.traces_validated = len(cases)
     ctx.exhaustive = False
